@@ -9,7 +9,7 @@ VERIF = os.path.dirname(os.path.dirname(os.path.abspath(__file__)))
 SPEC = os.path.join(VERIF, "spec")
 WORK = os.path.join(VERIF, ".work")
 REPLAYS = os.path.join(VERIF, "replays")
-EVID = os.path.join(VERIF, "evidence")
+EVID = os.environ.get("VERIF_EVIDENCE_DIR") or os.path.join(VERIF, "evidence")   # seed_eval.py redirects runs against mutated code
 sys.path.insert(0, os.path.join(VERIF, "bin"))
 import vbuild  # noqa: E402
 import ratcheck  # noqa: E402
